@@ -174,7 +174,7 @@ def o_aggregate(ctx, case):
         return
     want = B.signature_bytes(blssig.aggregate_points([B.signature_point(s) for s in sigs]))
     got = S.Aggregate(sigs)
-    ctx.check(type(got) is bytes and got == want, "aggregate", "value", case,
+    ctx.check(isinstance(got, bytes) and got == want, "aggregate", "value", case,
               f"Aggregate = {got.hex() if isinstance(got, bytes) else got!r}, group sum = {want.hex()}")
     perm = case.get("perm")
     if perm:
